@@ -3,6 +3,9 @@ package ppool
 import (
 	"fmt"
 	"os"
+	"runtime/debug"
+	"sort"
+	"strings"
 	"sync"
 	"time"
 
@@ -118,7 +121,7 @@ func c37CapCleanup() {
 	}
 }
 
-func newCapFixture(ctx *ev.Ctx) *capFixture {
+func newCapFixture(ctx *capCtx) *capFixture {
 	const netID = 2
 	fx := &capFixture{dir: lworld.TempDir("c37cap")}
 	ch, err := lworld.Open(fx.dir, 4, netID)
@@ -167,7 +170,7 @@ func capEntry(t *types.Transaction) *tc.TXEntry {
 }
 
 // setPool makes the pool hold exactly inPool + (want-1) fillers.
-func (fx *capFixture) setPool(ctx *ev.Ctx, want int) {
+func (fx *capFixture) setPool(ctx *capCtx, want int) {
 	for _, t := range fx.extra {
 		fx.pool.DelTxList(t)
 	}
@@ -187,7 +190,121 @@ func (fx *capFixture) setPool(ctx *ev.Ctx, want int) {
 	}
 }
 
+// capOut is the outcome of one capacity case; it crosses the process boundary in -race builds.
+type capOut struct {
+	Fail       string            `json:"fail,omitempty"`
+	Labels     []string          `json:"labels,omitempty"`
+	NonTrivial bool              `json:"nontrivial,omitempty"`
+	Known      map[string]string `json:"known,omitempty"` // root-cause key -> observation
+	Crash      string            `json:"crash,omitempty"`
+}
+
+type capCtx struct{ out *capOut }
+
+type capFail struct{}
+
+func (c *capCtx) Failf(format string, a ...interface{}) {
+	c.out.Fail = fmt.Sprintf(format, a...)
+	panic(capFail{})
+}
+func (c *capCtx) Label(l string) { c.out.Labels = append(c.out.Labels, l) }
+func (c *capCtx) NonTrivial()    { c.out.NonTrivial = true }
+func (c *capCtx) Known(key, format string, a ...interface{}) {
+	if c.out.Known == nil {
+		c.out.Known = map[string]string{}
+	}
+	c.out.Known[key] = fmt.Sprintf(format, a...)
+}
+
+// capRun executes one capacity case on the real server and returns what it saw (no ev.Ctx: in
+// -race builds it runs in the executor child, see runC37Cap).
+func capRun(c c37Case) (out capOut) {
+	ctx := &capCtx{out: &out}
+	defer func() {
+		if r := recover(); r != nil {
+			if _, ok := r.(capFail); !ok {
+				out.Fail = fmt.Sprintf("panic: %v\n%s", r, debug.Stack())
+			}
+		}
+	}()
+	capBody(ctx, c)
+	return out
+}
+
+// runC37Cap: in-process normally; in a -race build in a child process of the test binary, whose
+// race-detector reports are attributed to the case that was running and routed through
+// ctx.Known (the detector reports each distinct race once per process and goes on).
 func runC37Cap(ctx *ev.Ctx, c c37Case) {
+	var out capOut
+	if raceBuild && os.Getenv("VERIF_C37_INPROC") != "1" {
+		var races []string
+		out, races = c37ExecuteCap(c)
+		for _, r := range races {
+			key, what := classifyRace(r)
+			ctx.Label("cap:race-report")
+			ctx.Known(key, "%s", what)
+		}
+	} else {
+		out = capRun(c)
+	}
+	for _, l := range out.Labels {
+		ctx.Label(l)
+	}
+	if out.NonTrivial {
+		ctx.NonTrivial()
+	}
+	if out.Crash != "" {
+		ctx.Failf("capacity case brought the executor process down:\n%s", out.Crash)
+	}
+	if out.Fail != "" {
+		ctx.Failf("%s", out.Fail)
+	}
+	keys := make([]string, 0, len(out.Known))
+	for k := range out.Known {
+		keys = append(keys, k)
+	}
+	sort.Strings(keys)
+	for _, k := range keys {
+		ctx.Known(k, "%s", out.Known[k])
+	}
+}
+
+// classifyRace derives a root-cause key from a race-detector report: the innermost poly frames
+// of the two conflicting accesses.
+func classifyRace(report string) (key, what string) {
+	var fns []string
+	lines := strings.Split(report, "\n")
+	for i := 0; i < len(lines); i++ {
+		l := strings.TrimSpace(lines[i])
+		if strings.HasPrefix(l, "Write at") || strings.HasPrefix(l, "Read at") || strings.HasPrefix(l, "Previous write at") || strings.HasPrefix(l, "Previous read at") ||
+			strings.HasPrefix(l, "Atomic") || strings.HasPrefix(l, "Previous atomic") {
+			for j := i + 1; j < len(lines) && strings.TrimSpace(lines[j]) != ""; j++ {
+				f := strings.TrimSpace(lines[j])
+				if strings.HasPrefix(f, "github.com/polynetwork/poly/") {
+					f = strings.TrimPrefix(f, "github.com/polynetwork/poly/")
+					if k := strings.Index(f, "("); k > 0 && strings.HasSuffix(f, "()") {
+						f = f[:len(f)-2]
+					}
+					fns = append(fns, f)
+					break
+				}
+			}
+		}
+	}
+	sort.Strings(fns)
+	key = "race:" + strings.Join(fns, "|")
+	joined := strings.Join(fns, " ")
+	if (strings.Contains(joined, "assignTxToWorker") || strings.Contains(joined, "reVerifyStateful")) && strings.Contains(joined, "txPoolWorker") {
+		// one root cause: the load balancer reads len(worker.pendingTxList) without worker.mu
+		key = "race:loadbalancer-reads-worker-pending-list-unlocked"
+	}
+	if len(lines) > 40 {
+		lines = lines[:40]
+	}
+	return key, "race detector report while the real TXPoolServer handled submissions:\n" + strings.Join(lines, "\n")
+}
+
+func capBody(ctx *capCtx, c c37Case) {
 	if c.Cap == nil || c.Cap.Below < 0 || c.Cap.Below > 16 {
 		ctx.Failf("harness: malformed capacity case")
 	}
